@@ -6,7 +6,8 @@ from hypothesis import strategies as st
 from vt import core, gen
 from vt.core import Checker, lib, dense, dense_abs, DT, UNIT, MANT, fro
 
-RULE = ("Hypothesis draws an operation (binary +,-,* with all broadcasting alignments of the second operand, "
+RULE = ("Hypothesis draws an operation (binary +,-,* with all broadcasting alignments of the second operand, and the same "
+        "alignments with the operands swapped - there the library may raise ShapeMismatch, a returned TT must equal torch's broadcast -, "
         "scalar ops from both sides with every scalar kind, unary, /scalar, kron, full(), factories), operand "
         "structures (order 1-5, mode sizes from {1,2,3,4,5,7} mostly pairwise distinct, independent rank "
         "profiles 1-4, dtype) and payload seeds (70% small-integer payload -> bit-exact oracle, 30% Gaussian -> "
@@ -44,12 +45,13 @@ def strategy_case(draw):
     case = {"op": op, "x": x}
     d = len(x["N"])
     if op in BIN:
-        align = draw(st.sampled_from(["same", "same", "trail", "ones", "trail_ones", "rev"]))
+        align = draw(st.sampled_from(["same", "same", "trail", "ones", "trail_ones", "rev", "rev_trail", "rev_ones",
+                                       "rev_trail_ones"]))
         N = list(x["N"])
-        if align in ("trail", "trail_ones") and d > 1:
+        if align in ("trail", "trail_ones", "rev_trail", "rev_trail_ones") and d > 1:
             k = draw(st.integers(1, d - 1))
             N = N[d - k:]
-        if align in ("ones", "trail_ones"):
+        if align in ("ones", "trail_ones", "rev_ones", "rev_trail_ones"):
             flags = draw(st.lists(st.booleans(), min_size=len(N), max_size=len(N)))
             N = [1 if f else n for n, f in zip(N, flags)]
         y = draw(gen.tt_spec(N=N, dt=x["dt"], mode=x["mode"]))
@@ -128,18 +130,19 @@ def execute(case):
         align = case["align"]
         ck.label("align:" + align)
         first, second, fd, sd, fa, sa, fr, sr = x, y, xd, yd, xa, ya, rx, ys["R"]
-        if align == "rev":
+        rev = align.startswith("rev")
+        if rev:
             first, second, fd, sd, fa, sa, fr, sr = y, x, yd, xd, ya, xa, ys["R"], rx
         bcast = list(fd.shape) != list(sd.shape)
         f = {"add": lambda a, b: a + b, "sub": lambda a, b: a - b, "mul": lambda a, b: a * b}[op]
         try:
             res = lib(f, first, second)
         except core.LibraryException as e:
-            if align == "rev" and bcast and isinstance(e.orig, T.errors.ShapeMismatch):
+            if rev and bcast and isinstance(e.orig, T.errors.ShapeMismatch):
                 ck.label("rejected_cleanly")
                 return ck.verdict()
             raise
-        if not ck.require(list(_bshape(fd, sd)) == list(fd.shape) or align == "rev", "harness", "bad generator"):
+        if not ck.require(list(_bshape(fd, sd)) == list(fd.shape) or rev, "harness", "bad generator"):
             return ck.verdict()
         ref = f(fd, sd)
         ref_abs = (fa * sa) if op == "mul" else (fa + sa)
